@@ -364,11 +364,151 @@ func c40JSONBounds() []string {
 		map[string]any{"nested": map[string]any{"deep": map[string]any{"deeper": []any{map[string]any{"deepest": long(200)}}}}},
 		[]any{long(40000), long(40000)}, // second value starts beyond a 16-bit offset
 	}
+	docs = append(docs, c40JSONLargeDocs()...)
 	out := make([]string, len(docs))
 	for i, d := range docs {
 		out[i] = c40JSONLit(d)
 	}
 	return out
+}
+
+// c40JSONMixedObject / c40JSONMixedArray return a container that directly holds every value kind — the inlineable ones
+// (null, true, false, and numbers in the int16 / uint16 / int32 / uint32 ranges) next to the non-inlineable ones
+// (string, double, 64-bit numbers, nested containers with literals of their own) — and one padding string that sets
+// the encoded size, so that the same shape can be placed just below and just above the 65535-byte format switch.
+func c40JSONMixedObject(pad string) map[string]any {
+	return map[string]any{
+		"a_null": nil, "b_true": true, "c_false": false, "d_i16": float64(-12345), "e_u16": float64(54321), "f_i32": float64(-2000000000),
+		"g_u32": float64(4000000000), "h_i64": float64(-9007199254740991), "i_dbl": 1.5, "j_str": "str",
+		"k_obj": map[string]any{"x": nil, "y": true, "z": "s"}, "l_arr": []any{false, nil, float64(1), "s"},
+		"m_pad": pad, "n_null": nil, "o_true": true, "p_str": "after the padding", "q_false": false,
+	}
+}
+
+func c40JSONMixedArray(pad string, padAt int) []any {
+	arr := []any{nil, true, false, float64(-12345), float64(54321), float64(-2000000000), float64(4000000000), float64(-9007199254740991), 1.5, "str",
+		map[string]any{"x": nil, "y": true, "z": "s"}, []any{false, nil, float64(1), "s"}, nil, true, "tail", false}
+	switch padAt % 3 {
+	case 0:
+		return append([]any{pad}, arr...)
+	case 1:
+		return append(append(append([]any{}, arr[:8]...), pad), arr[8:]...)
+	}
+	return append(arr, pad, nil)
+}
+
+// c40JSONLargeDocs forces MySQL's LARGE binary format (4-byte counts, sizes and offsets, 5-byte value entries) at
+// every container kind and nesting position, with sizes straddling the switch and with element counts that switch it.
+func c40JSONLargeDocs() []any {
+	rng := rand.New(rand.NewSource(41))
+	pad := func(n int) string { return c40Str(rng, n, true) }
+	var docs []any
+	// the same shape from ~300 bytes below to ~300 bytes above the 65535-byte switch, alternating object / array
+	i := 0
+	for n := 64900; n <= 65620; n += 12 {
+		if i%2 == 0 {
+			docs = append(docs, c40JSONMixedObject(pad(n)))
+		} else {
+			docs = append(docs, c40JSONMixedArray(pad(n), i/2))
+		}
+		i++
+	}
+	for _, n := range []int{66000, 70000, 140000, 300000} {
+		docs = append(docs, c40JSONMixedObject(pad(n)), c40JSONMixedArray(pad(n), n))
+	}
+	// large containers below parents with few elements, and below each other
+	docs = append(docs,
+		map[string]any{"outer": c40JSONMixedObject(pad(66000))},
+		map[string]any{"a": nil, "big": c40JSONMixedObject(pad(70000)), "z": true},
+		map[string]any{"a": nil, "big": c40JSONMixedArray(pad(70000), 1), "z": false},
+		[]any{c40JSONMixedObject(pad(66000)), nil, true},
+		[]any{false, c40JSONMixedArray(pad(66000), 2), nil},
+		map[string]any{"l1": map[string]any{"t": true, "l2": map[string]any{"n": nil, "l3": c40JSONMixedObject(pad(66000)), "f": false}, "u": nil}},
+		[]any{nil, []any{true, []any{false, c40JSONMixedArray(pad(66000), 0), nil}, true}, false},
+		// two children that are each small but together push the parent over the switch
+		map[string]any{"n": nil, "c1": c40JSONMixedObject(pad(40000)), "t": true, "c2": c40JSONMixedArray(pad(40000), 1), "f": false},
+		[]any{nil, c40JSONMixedObject(pad(40000)), true, c40JSONMixedArray(pad(40000), 1), false},
+	)
+	// format switched by the number of elements rather than by one big member
+	lits := []any{nil, true, false}
+	manyObj := func(n int) map[string]any {
+		o := map[string]any{}
+		for k := 0; k < n; k++ {
+			switch k % 5 {
+			case 3:
+				o[fmt.Sprintf("k%05d", k)] = float64(k)
+			case 4:
+				o[fmt.Sprintf("k%05d", k)] = fmt.Sprintf("v%d", k)
+			default:
+				o[fmt.Sprintf("k%05d", k)] = lits[k%5]
+			}
+		}
+		return o
+	}
+	manyArr := func(n int, onlyLits bool) []any {
+		a := make([]any, n)
+		for k := range a {
+			if onlyLits || k%4 != 3 {
+				a[k] = lits[k%3]
+			} else {
+				a[k] = float64(k)
+			}
+		}
+		return a
+	}
+	docs = append(docs, manyObj(4300), manyObj(4800), manyObj(9000), // ~15 bytes per member: just below / above / far above
+		manyArr(21700, true), manyArr(22000, true), manyArr(30000, false), manyArr(66000, true), // 3 bytes per literal; 66000 > 65535 elements
+		map[string]any{"few": true, "many": manyObj(5000), "null": nil}, []any{manyArr(23000, true), nil, manyObj(100)})
+	return docs
+}
+
+// c40JStats counts, over the JSON documents that were actually stored and compared, how the production encoder laid
+// them out. encodeJsonValue is called here for counting only; it decides no verdict.
+var c40JStats struct{ largeObj, largeArr, largeInline, smallNearLimit, nestedLarge int }
+
+func c40JSONShape(v any, depth int) {
+	var members []any
+	switch x := v.(type) {
+	case map[string]any:
+		for _, e := range x {
+			members = append(members, e)
+		}
+	case []any:
+		members = x
+	default:
+		return
+	}
+	typeId, enc, err := encodeJsonValue(v)
+	if err != nil {
+		return
+	}
+	hasLit := false
+	for _, e := range members {
+		if _, isBool := e.(bool); isBool || e == nil {
+			hasLit = true
+		}
+	}
+	switch typeId {
+	case jsonTypeLargeObject, jsonTypeLargeArray:
+		if typeId == jsonTypeLargeObject {
+			c40JStats.largeObj++
+		} else {
+			c40JStats.largeArr++
+		}
+		if hasLit {
+			c40JStats.largeInline++
+		}
+		if depth > 0 {
+			c40JStats.nestedLarge++
+		}
+	default:
+		if len(enc) > 64000 {
+			c40JStats.smallNearLimit++
+		}
+	}
+	for _, e := range members {
+		c40JSONShape(e, depth+1)
+	}
 }
 
 func c40Catalogue() []c40Col {
@@ -478,7 +618,18 @@ func c40Catalogue() []c40Col {
 		c40BinCol("varbinary(1)", 1, false), c40BinCol("varbinary(10)", 10, false), c40BinCol("varbinary(255)", 255, false), c40BinCol("varbinary(256)", 256, false), c40BinCol("varbinary(60000)", 60000, false),
 		c40LobCol("tinytext", 255, true), c40LobCol("text", 65535, true), c40LobCol("mediumtext", 1<<24-1, true), c40LobCol("longtext", 1<<30, true),
 		c40LobCol("tinyblob", 255, false), c40LobCol("blob", 65535, false), c40LobCol("mediumblob", 1<<24-1, false), c40LobCol("longblob", 1<<30, false),
-		c40Col{Def: "json", Family: "json", Heavy: true, Bounds: c40JSONBounds, Rand: func(rng *rand.Rand) string { return c40JSONLit(c40JSONRand(rng, 0)) }},
+		c40Col{Def: "json", Family: "json", Heavy: true, Bounds: c40JSONBounds, Rand: func(rng *rand.Rand) string {
+			doc := c40JSONRand(rng, 0)
+			switch rng.Intn(4) {
+			case 0: // a random document inside a container around the format switch
+				o := c40JSONMixedObject(c40Str(rng, 64500+rng.Intn(1500), true))
+				o["r_random"] = doc
+				doc = o
+			case 1:
+				doc = append(c40JSONMixedArray(c40Str(rng, 64500+rng.Intn(1500), true), rng.Intn(3)), doc)
+			}
+			return c40JSONLit(doc)
+		}},
 		c40Col{Def: "point", Family: "geometry", Bounds: lit("point(0,0)", "point(1,2)", "point(-1.5,1e300)", "ST_GeomFromText('POINT(1 2)', 4326)"),
 			Rand: func(rng *rand.Rand) string {
 				return fmt.Sprintf("point(%v,%v)", rng.NormFloat64()*100, rng.NormFloat64()*100)
@@ -872,6 +1023,10 @@ func c40Compare(ctx *sql.Context, typ sql.Type, stored any, cell sqltypes.Value)
 		sv, err := jw.ToInterface(ctx)
 		if err != nil {
 			return false, "ToInterface: " + err.Error(), got, "harness"
+		}
+		c40JSONShape(sv, 0)
+		if tid, _, e := encodeJsonValue(sv); e == nil && (tid == jsonTypeLargeObject || tid == jsonTypeLargeArray) {
+			class = "large-format-document"
 		}
 		dv, err := c40ParseJSONExpr(gr)
 		if err != nil {
@@ -1355,7 +1510,15 @@ func TestVerifC40(t *testing.T) {
 						cell, l, err = mysql.CellValue(dr.Data, pos, tm.Types[ci], tm.Metadata[ci], colTypes[ci].Type())
 						if err != nil {
 							broken = true
-							viol("c40/decode/error/"+colDefs[ci], "vitess CellValue: "+err.Error(), map[string]any{"table": tb.name, "column": colDefs[ci]})
+							rid := "?"
+							if stored != nil {
+								rid = fmt.Sprint(stored[0])
+							}
+							msg := err.Error()
+							if len(msg) > 300 {
+								msg = msg[:300] + "..."
+							}
+							viol("c40/decode/error/"+colDefs[ci], "vitess CellValue cannot decode the emitted cell: "+msg, map[string]any{"table": tb.name, "column": colDefs[ci], "row_id": rid})
 							return
 						}
 						pos += l
@@ -1423,6 +1586,13 @@ func TestVerifC40(t *testing.T) {
 	for _, f := range famOrder {
 		c.Require(famCells[f] > 0, "no non-NULL cell of family "+f+" was compared")
 	}
+	c.Count("c40.json.large_format_objects", c40JStats.largeObj)
+	c.Count("c40.json.large_format_arrays", c40JStats.largeArr)
+	c.Count("c40.json.large_with_inline_literals", c40JStats.largeInline)
+	c.Count("c40.json.large_nested_below_top_level", c40JStats.nestedLarge)
+	c.Count("c40.json.small_format_containers_over_64000_bytes", c40JStats.smallNearLimit)
+	c.Require(c40JStats.largeObj > 0 && c40JStats.largeArr > 0 && c40JStats.largeInline > 0 && c40JStats.nestedLarge > 0 && c40JStats.smallNearLimit > 0,
+		"JSON large-format coverage missing (large objects, large arrays, large containers with inline literals, nested large containers and small containers just below the switch are all required)")
 	c.Require(nulls > 0, "no NULL cell observed")
 	_ = binary.LittleEndian
 }
